@@ -269,15 +269,18 @@ def params_get_list(eng, st, p, args, kw, node):
                 yield st1, VList([])
 
 
+params_objects_fn = z3.Function("params_objects", z3.StringSort(), Seq(STR).sort())
+
+
 def params_objects(eng, st, p, args, kw, node):
     has, val = _p(eng, st, p)
     k = _key(eng, args[0], st)
     s = z3.If(z3.Select(has, k), z3.Select(val, k), z3.StringVal(""))
-    r = fresh(Seq(STR), "objects")
     # objects(): whitespace split, duplicates removed, original order -> abstract duplicate-free sequence
-    objs = z3.Function("params_objects", z3.StringSort(), z3.SeqSort(z3.StringSort()))
-    st.assume(r.term == objs(s))
-    st.assume((z3.Length(r.term) == 0) == (str_wsplit(s) == z3.Empty(z3.SeqSort(z3.StringSort()))))
+    r = V(Seq(STR), params_objects_fn(s))
+    L = Seq(STR)
+    st.assume((L.len(r.term) == 0) == (L.len(str_wsplit(s)) == 0))
+    st.assume(z3.Implies(s == z3.StringVal(""), L.len(r.term) == 0))
     yield st, r
 
 
@@ -405,20 +408,6 @@ def install(eng):
 def well_formed(eng, st):
     """Data-structure facts assumed of every initial state."""
     pass
-
-
-def wf_map(m):
-    """Well-formedness of a Map value: keys sequence is duplicate-free and agrees with the domain."""
-    k = m.kind
-    keys, dom = k.keys(m.term), k.dom(m.term)
-    x = z3.Const(fresh_name("wk"), k.key.sort())
-    i = z3.Const(fresh_name("wi"), z3.IntSort())
-    j = z3.Const(fresh_name("wj"), z3.IntSort())
-    n = z3.Length(keys)
-    return z3.And(
-        z3.ForAll([x], z3.Select(dom, x) == z3.Contains(keys, z3.Unit(x))),
-        z3.ForAll([i, j], z3.Implies(z3.And(0 <= i, i < j, j < n), keys[i] != keys[j])),
-    )
 
 
 def axioms(eng):
